@@ -24,6 +24,9 @@ type prog struct {
 // model (distinct saliences fix the order), compared with the reference execution.
 func RunC02(k *fw.Case) {
 	r := k.Rng
+	if k.Index%20 == 3 {
+		runC02BigRange(k)
+	}
 	nProg := 5
 	seed := r.Int63()
 	fxG, fxR := gen.NewFixture(seed), gen.NewFixture(seed)
